@@ -44,6 +44,7 @@ def plan(tier, seed):
         shards += plan_graph_shards("B", k=2, parts=8, with_ext=True, tree_list=list(BIG_TREES))
     adv = plan_graph_shards("A", n_max=4 if tier == "quick" else 5, chunk=64)
     shards += [dict(s, naming="adversarial", bound=s["bound"] + " naming=adversarial") for s in adv]
+    shards += [dict(s, naming="unicode", bound=s["bound"] + " naming=unicode (non-ASCII identifiers)") for s in adv]
     for s in shards:
         s["part"] = "graph"
         s["rules"] = True
